@@ -291,7 +291,15 @@ func (a *Box2) lineIntersect(l *Line2) *Line2 {
 
 	// early exit for a line entirely within the box
 	if a.Contains(l[0]) && a.Contains(l[1]) {
-		return l
+		// Snap the end points like those of the clipped pieces: a vertex an ulp
+		// off a box edge must sit on that edge in this piece too, or the pieces
+		// of the edges meeting at it disagree about its level.
+		p0 := a.Snap(l[0], tolerance)
+		p1 := a.Snap(l[1], tolerance)
+		if p0 == l[0] && p1 == l[1] {
+			return l
+		}
+		return &Line2{p0, p1}
 	}
 
 	tSet := []float64{0, 1}
